@@ -1,5 +1,6 @@
 import DelbDriver.Edit
 import DelbModel.Model.Nav
+import DelbModel.Model.NavFilter
 open Lean Delb Delb.Edit Delb.Nav
 
 namespace DelbDriver
@@ -62,5 +63,46 @@ def handleNav (j : Json) : Except String Json := do
       ("full_text", jstr (fullText n)),
       ("bf", ids (traverseBF n)), ("df", ids (traverseDF n)), ("post", ids (postorder n))]
   return Json.mkObj [("nodes", Json.arr rows.toArray), ("preorder", ids (preorder root))]
+
+/-- the predicate "the node's kind is one of the listed ones" (`is_tag_node`, `is_text_node`,
+    `is_comment_node`, `is_processing_instruction_node` combined with `any_of`) -/
+def kindPred (kinds : List String) : PTree → Bool
+  | .tag .. => kinds.contains "tag"
+  | .text .. => kinds.contains "text"
+  | .comment .. => kinds.contains "comment"
+  | .pi .. => kinds.contains "pi"
+
+/-- {"cmd":"nav_filtered","tree":ptree,"kinds":["tag","text","comment","pi"]}: for every node (by path)
+    what the filtered iterators of `Model/NavFilter.lean` yield when the filters in effect pass exactly
+    the listed node kinds.  "ancestors" applies the predicate as the *given* filter (the method ignores
+    the default filters); "index" is null for a root and for a node that does not pass
+    (`InvalidCodePath` in the code); "item_last" is `node[-1]`. -/
+def handleNavFiltered (j : Json) : Except String Json := do
+  let root ← ptreeOfJson (← j.getObjVal? "tree")
+  let kinds ← (← arr j "kinds").toList.mapM (·.getStr?)
+  let p := kindPred kinds
+  let optNode (o : Option PTree) : Json := optId (o.map (·.id))
+  let rows := (allPaths root).map fun (path, n) =>
+    Json.mkObj [
+      ("id", jnat n.id),
+      ("path", Json.arr (path.map jnat).toArray),
+      ("passes", Json.bool (p n)),
+      ("children", ids (childrenF p n)),
+      ("first_child", optNode (firstChildF p n)),
+      ("last_child", optNode (lastChildF p n)),
+      ("len", jnat (lenF p n)),
+      ("items", Json.arr ((List.range (lenF p n + 1)).map fun (i : Nat) => optNode (getItemF p n (Int.ofNat i))).toArray),
+      ("item_last", optNode (getItemF p n (-1))),
+      ("index", optId (indexF p root path)),
+      ("following_siblings", ids (followingSiblingsF p root path)),
+      ("following_sibling", optNode (fetchFollowingSiblingF p root path)),
+      ("preceding_siblings", ids (precedingSiblingsF p root path)),
+      ("preceding_sibling", optNode (fetchPrecedingSiblingF p root path)),
+      ("descendants", ids (descendantsF p n)),
+      ("ancestors", ids (ancestorsF p root path)),
+      ("following", ids (followingF p root path)),
+      ("preceding", ids (precedingF p root path)),
+      ("last_descendant", optNode (lastDescendantF p (Nav.size n + 1) n))]
+  return Json.mkObj [("nodes", Json.arr rows.toArray)]
 
 end DelbDriver
